@@ -346,6 +346,7 @@ def htpasswd_suite(ctx):
     pool = H.Pool(rng)
     wd = tempfile.mkdtemp(prefix="rv-c05h-")
     cases = []
+    reported = set()
     try:
         todo = corpus(pool)
         n = ctx.n(300, 6000)
@@ -364,7 +365,10 @@ def htpasswd_suite(ctx):
                         ctx.count("ht:success:%s:%s" % (cfg["enc"], "cache" if cfg["cache"] else "nocache"))
             v = ht_monitor(case, res)
             if v:
-                ctx.violation("C05 htpasswd: " + v[0], dict(kind="htpasswd", case=_json_ht(case), observed=res), signature=v[1])
+                ctx.count("ht:violation:%s" % (v[1] or "other"))
+                if v[1] is None or v[1] not in reported:          # one replay per signature, the count goes to the distribution
+                    reported.add(v[1])
+                    ctx.violation("C05 htpasswd: " + v[0], dict(kind="htpasswd", case=_json_ht(case), observed=res), signature=v[1])
             ctx.case(("ht", json.dumps(_json_ht(case), sort_keys=True)), nontrivial=res is not None and any(r[0] == "user" for r in res) or
                      res is not None and len(res) > 1, sample=dict(suite="htpasswd", cfg=cfg, file0=_json_ht(case)["file0"]["data"],
                                                                     attempts=[[l, pw] for _, l, pw in case["steps"]], results=res) if i == len(todo) else None)
